@@ -300,6 +300,12 @@ func (cs *State) OnStart() error {
 	// We may set the WAL in testing before calling Start, so only OpenWAL if its
 	// still the nilWAL.
 	if _, ok := cs.wal.(nilWAL); ok {
+		// A crash can leave a partial record at the end of the WAL. Anything
+		// appended behind it can not be read back, so make sure the file decodes
+		// up to its end before it is opened for appending.
+		if err := cs.repairWalFileIfDamaged(); err != nil {
+			return err
+		}
 		if err := cs.loadWalFile(); err != nil {
 			return err
 		}
@@ -2340,6 +2346,48 @@ func CompareHRS(h1 int64, r1 int32, s1 cstypes.RoundStepType, h2 int64, r2 int32
 		return 1
 	}
 	return 0
+}
+
+// repairWalFileIfDamaged replaces the WAL head file with its decodable prefix
+// if it does not decode cleanly up to its end (the original is kept as
+// <walFile>.CORRUPTED). It must be called before the WAL is opened.
+func (cs *State) repairWalFileIfDamaged() error {
+	walFile := cs.config.WalFile()
+	if !tmos.FileExists(walFile) {
+		return nil
+	}
+	damaged, err := walFileIsDamaged(walFile)
+	if err != nil || !damaged {
+		return err
+	}
+
+	cs.Logger.Error("the WAL file ends with an incomplete or corrupted record; attempting repair", "wal", walFile)
+	corruptedFile := fmt.Sprintf("%s.CORRUPTED", walFile)
+	if err := tmos.CopyFile(walFile, corruptedFile); err != nil {
+		return err
+	}
+	if err := repairWalFile(corruptedFile, walFile); err != nil {
+		cs.Logger.Error("the WAL repair failed", "err", err)
+		return err
+	}
+	cs.Logger.Info("successful WAL repair")
+	return nil
+}
+
+// walFileIsDamaged reports whether decoding the file stops before its end.
+func walFileIsDamaged(path string) (bool, error) {
+	f, err := os.Open(path)
+	if err != nil {
+		return false, err
+	}
+	defer f.Close()
+
+	dec := NewWALDecoder(f)
+	for {
+		if _, err := dec.Decode(); err != nil {
+			return !errors.Is(err, io.EOF), nil
+		}
+	}
 }
 
 // repairWalFile decodes messages from src (until the decoder errors) and
